@@ -13,7 +13,8 @@ META = {
         "key present/absent, array empty/non-empty, alternative of nested values). Obligations per leaf: the "
         "handler does not raise / fall through / return None for a non-null value (supported) and the class it "
         "structures into accepts every valid value of the alternative in that world (sound, metamodel-level "
-        "subsumption computed coinductively). Sites without any handler are reported."),
+        "subsumption computed coinductively). Sites without any handler are reported."
+        "Added clauses: each of the 193 positions whose metamodel type contains a union is annotated with exactly that type (else it is no dispatch site at all); get_converter registers the hooks on the default path and on a caller-supplied converter (taken over from C19's fold of get_converter)."),
     "rule": "one obligation per (site, handler variant, alternative, world); plus one per site for 'has a handler'",
     "trusted_base": ["A1 cattrs 24.1 dispatch order", "A2 create_default_dis_func", "A3 generated attrs structure fn",
                      "typing: unions compare as sets, flatten, dedupe"],
